@@ -309,7 +309,7 @@ static std::string gen_junk_resolv(Chooser &c, unsigned &kind) {
   if (kind == 1) return std::string(c.chance(1, 2) ? "#" : ";") + (c.chance(1, 2) ? " nameserver 9.9.9.9" : gen_junk_token(c));
   if (kind == 2) { std::string t = gen_junk_token(c); while (!t.empty() && (t[0] == ' ' || t[0] == '\t' || t[0] == '\r')) t.erase(0, 1); static const char *known[] = {"nameserver", "search", "domain", "options", "sortlist", "lookup", "hostresorder"}; for (auto k : known) if (t.compare(0, strlen(k), k) == 0) t = "x" + t; return t.empty() ? "??" : t; }
   static const char *bad[] = {"options timeout:0", "options attempts:0", "options retry:0", "options retrans:0", "options timeout:abc", "options bogus:1", "options :", "options timeout:", "options ::::", "nameserver 300.1.1.1", "nameserver fe80::1", "nameserver", "nameserver  ", "nameserver [1.2.3.4", "nameserver example.test",
-                              "sortlist x/99", "sortlist 1.2.3.4/99", "sortlist 999.1.1.1", "search", "domain", "options", "lookup nonsense", "lookup", "sortlist 1.2.3.4/255.255.0.0.0", "options ndots", "options ndots:abc", "options ndots:-1", "options timeout:99999999999999999999", "nameserver 1.2.3.4:70000", "options attempts:abc"};
+                              "sortlist x/99", "sortlist 1.2.3.4/99", "sortlist 999.1.1.1", "search", "domain", "options", "lookup nonsense", "lookup", "sortlist 1.2.3.4/255.255.0.0.0", "options ndots", "options ndots:abc", "options ndots:-1", "options timeout:99999999999999999999", "nameserver 1.2.3.4:70000", "options attempts:abc", "sortlist ;", "sortlist ; ;  ;", "search ,", "search , ,,", "domain ,", "lookup ,", "options ,"};
   return bad[c.pick(sizeof bad / sizeof *bad)];
 }
 static std::string gen_case(const std::string &prop, const std::string &kind, const unsigned char *data, size_t size) {
